@@ -436,8 +436,13 @@ pub fn judge_step(
         ));
     }
     // calls: exact for authorization + writes, scope for reads
-    let non_reads: Vec<&Call> = obs.calls.iter().filter(|c| !c.is_read()).collect();
-    let exp_refs: Vec<&Call> = expect.calls.iter().collect();
+    let mut non_reads: Vec<&Call> = obs.calls.iter().filter(|c| !c.is_read()).collect();
+    let mut exp_refs: Vec<&Call> = expect.calls.iter().collect();
+    if expect.class == "broadcast-write" {
+        // "applied exactly once to every configured unit": the order of the fan-out is not specified
+        non_reads.sort_by_key(|c| format!("{c:?}"));
+        exp_refs.sort_by_key(|c| format!("{c:?}"));
+    }
     if non_reads != exp_refs {
         out.push((
             format!("handler-calls:{}", expect.class),
